@@ -61,47 +61,118 @@ MANIFEST = {
 }
 
 # (own copies: the C01 helpers are being generalised independently)
-KINDS = {'dc': 'KDc', 's': 'KS', 'ivp': 'KIvp', 'laplace': 'KLaplace', 'transient': 'KTransient', 't': 'KT', 'time': 'KTime'}
+KINDS = {'dc': 'KDc', 's': 'KS', 'ivp': 'KIvp', 'laplace': 'KLaplace', 'transient': 'KTransient', 't': 'KT', 'time': 'KTime', 'ac': 'KAc'}
 CNAMES = ['RC', 'L', 'V', 'AM', 'I', 'VCVS', 'VCCS', 'CCCS', 'CCVS', 'K', 'TF', 'GY', 'TL', 'TPA', 'TPB', 'TPG', 'TPH',
           'TPY', 'TPZ', 'TR', 'SPpp', 'SPpm', 'SPppp', 'SPpmm', 'SPppm', 'RV', 'Dummy']
 PNAMES = ['pY', 'pZ', 'pIsc', 'pVoc', 'pArg0', 'pArg1', 'pAlpha', 'pEps', 'pA11', 'pA12', 'pA21', 'pA22',
-          'pY11', 'pY12', 'pY21', 'pY22', 'pZM0', 'pZM1', 'pZL1', 'pZL2', 'pK']
+          'pY11', 'pY12', 'pY21', 'pY22', 'pZM0', 'pZM1', 'pZL1', 'pZL2', 'pK', 'pZM2', 'pI01', 'pI02']
 
 
 def bl(x):
     return 'true' if x else 'false'
 
 
-def craw_of(e, ids, kindc, owner, eps):
-    """Coq `CRaw` literal (Gen.C04model.craw) for one element of the worker dump, or None if unsupported"""
+def craw_of(e, ids, kindc, owner, eps, fld='QcF'):
+    """Coq `GRaw` literal (Gen.C04model.graw) for one element of the worker dump, or None if unsupported"""
     if owner not in CNAMES:
         return None
     pr = dict(e['params'])
     pr['pEps'] = eps
-    arms = ['%s => %s' % (pn, q(pr[pn])) for pn in PNAMES if pr.get(pn) is not None]
+    zero = q(0, fld)
+    arms = ['%s => %s' % (pn, q(pr[pn], fld)) for pn in PNAMES if pr.get(pn) is not None]
     if not arms:
-        par = '(fun _ => 0%Qc)'
+        par = '(fun _ => %s)' % zero
     elif len(arms) == len(PNAMES):
         par = '(fun n => match n with %s end)' % ' | '.join(arms)
     else:
-        par = '(fun n => match n with %s | _ => 0%%Qc end)' % ' | '.join(arms)
+        par = '(fun n => match n with %s | _ => %s end)' % (' | '.join(arms), zero)
     n = (e['nidx'] + [-1, -1, -1, -1])[:4]
     cidx = (e.get('cidx') or [-1, -1])
     ctrl = ids.get(e.get('ctrl'), 0)
     typ = {'C': 'TyC', 'm': 'TyM'}.get(e['type'], 'TyOtherType')
     info = '(CI %d %s %s %s %d)' % (ids[e['name']], bl(e['need_branch_current']), bl(e['need_extra_branch_current']),
                                     bl(e['is_current_controlled']), ctrl)
-    return ('(CRaw c%s %s %s %s (%d) (%d) (%d) (%d) (%d) (%d) %d %d %s %s %s %s %s)' % (
-        owner, info, kindc, typ, n[0], n[1], n[2], n[3], cidx[0], cidx[1],
+    return ('(GRaw %s c%s %s %s %s (%d) (%d) (%d) (%d) (%d) (%d) %d %d %s %s %s %s %s)' % (
+        fld, owner, info, kindc, typ, n[0], n[1], n[2], n[3], cidx[0], cidx[1],
         ids.get(e.get('L1'), 0), ids.get(e.get('L2'), 0),
         bl(e.get('has_ic')), bl(e.get('ctrl_is_vsrc', False)), bl(e['nargs'] > 1), bl(e.get('tp_has_src')), par))
 
 
-KINDTAG = {'dc': 'KDc', 'transient': 'KTransient', 'ivp': 'KIvp', 'none': 'KTransient', 'laplace': 'KLaplace'}
+KINDTAG = {'dc': 'KDc', 'transient': 'KTransient', 'ivp': 'KIvp', 'none': 'KTransient', 'laplace': 'KLaplace', 'ac': 'KAc'}
 FOUR = ('E', 'G', 'TF', 'GY', 'TP')
 
 
-def q(x):
+class G:
+    """exact Gaussian rational (ac analyses); interoperates with int / Fraction"""
+    __slots__ = ('re', 'im')
+
+    def __init__(self, re_=0, im_=0):
+        self.re, self.im = Fraction(re_), Fraction(im_)
+
+    @staticmethod
+    def of(x):
+        return x if isinstance(x, G) else G(x, 0)
+
+    def __add__(self, o):
+        o = G.of(o)
+        return G(self.re + o.re, self.im + o.im)
+    __radd__ = __add__
+
+    def __neg__(self):
+        return G(-self.re, -self.im)
+
+    def __sub__(self, o):
+        return self + (-G.of(o))
+
+    def __rsub__(self, o):
+        return G.of(o) - self
+
+    def __mul__(self, o):
+        o = G.of(o)
+        return G(self.re * o.re - self.im * o.im, self.re * o.im + self.im * o.re)
+    __rmul__ = __mul__
+
+    def __truediv__(self, o):
+        o = G.of(o)
+        d = o.re * o.re + o.im * o.im
+        return self * G(o.re / d, -o.im / d)
+
+    def __rtruediv__(self, o):
+        return G.of(o) / self
+
+    def __eq__(self, o):
+        if not isinstance(o, (G, Fraction, int)):
+            return False
+        o = G.of(o)
+        return self.re == o.re and self.im == o.im
+
+    def __ne__(self, o):
+        return not self.__eq__(o)
+
+    def __hash__(self):
+        return hash((self.re, self.im))
+
+    def __repr__(self):
+        return '%s|%s' % (self.re, self.im)
+    __str__ = __repr__
+
+
+def num(x):
+    """'p/q' -> Fraction, 're|im' -> G"""
+    if isinstance(x, (G, Fraction, int)):
+        return x
+    x = str(x)
+    if '|' in x:
+        a, _, b = x.partition('|')
+        return G(Fraction(a), Fraction(b))
+    return Fraction(x)
+
+
+def q(x, fld='QcF'):
+    """Coq literal in QcF or in the Gaussian rationals QcIF"""
+    if fld == 'QcIF':
+        g = G.of(num(x))
+        return '(qi (%d) %d (%d) %d)' % (g.re.numerator, g.re.denominator, g.im.numerator, g.im.denominator)
     return core.qc_lit(x)
 
 
@@ -154,13 +225,18 @@ def strip_common_mode(lines):
 
 
 # ---- loads: netlist lines (terminals P_, M_), and the textbook line u = E + Zl j at s0 ---
-def gen_load(rng, profile, s0, force=None):
+def gen_load(rng, profile, s0, force=None, omega=None):
     s = Fraction(s0)
     r = netgen.val(rng)
     kind = force or rng.choice(['R', 'RC', 'RL', 'RLC', 'VR'])
+    if profile == 'ac':
+        # phasor analysis at the circuit's angular frequency: s stands for j omega (a source in the load would make Lcapy
+        # add two phasors symbolically - slow - so ac loads are passive)
+        s = G(0, Fraction(omega))
+        kind = force or rng.choice(['R', 'RC', 'RL', 'RLC'])
     f = netgen.fs
     lines = ['Rld_ P_ xl1_ %s' % f(r)]
-    E, Zl = Fraction(0), r
+    E, Zl = Fraction(0), (G(r) if profile == 'ac' else r)
     last = 'xl1_'
     dc = profile == 'dc'
     if kind in ('RL', 'RLC'):
@@ -416,6 +492,7 @@ def border(A, e):
 # ---- case generation ---------------------------------------------------------------------
 FLOAT_ALLOW = ['E', 'G', 'H', 'F', 'TF', 'GY', 'K', 'W', 'AM', 'dup']
 NET_ALLOW = ['E', 'G', 'H', 'F', 'TF', 'GY', 'K', 'W', 'AM', 'dup', 'TPA', 'TPY', 'TR']
+AC_ALLOW = ['E', 'G', 'H', 'F', 'TF', 'GY', 'W', 'AM', 'dup']      # (mutual inductance at j omega needs a square root branch: left to C01/C14)
 
 CORPUS_NETS = [
     # DESIGN 6-F2
@@ -436,11 +513,11 @@ def gen_cases(rng, tier):
         c['mode'] = 'net'
         c['tags'] = ['corpus']
         cases.append(c)
-    profiles = ['s', 'ivp', 'dc', 's', 'ivp', 'dc', 's', 'ivp']
+    profiles = ['s', 'ivp', 'dc', 'ac', 's', 'ivp', 'dc', 'ac', 's', 'ivp']
     for i in range(n_net):
         prof = profiles[i % len(profiles)]
         floating = (i % 4 == 3)
-        nl = netgen.gen_netlist(rng, prof, allow=FLOAT_ALLOW if floating else NET_ALLOW)
+        nl = netgen.gen_netlist(rng, prof, allow=AC_ALLOW if prof == 'ac' else (FLOAT_ALLOW if floating else NET_ALLOW))
         lines = list(nl['lines'])
         tags = list(nl['tags'])
         if floating:
@@ -458,7 +535,14 @@ def gen_cases(rng, tier):
     for c in cases:
         if c['mode'] != 'net':
             continue
-        ld = gen_load(rng, c['profile'], c['s0'])
+        om = None
+        if c['profile'] == 'ac':
+            om = '1'
+            for l_ in c['netlist']:
+                t_ = l_.split()
+                if len(t_) >= 7 and t_[3] == 'ac':
+                    om = t_[6].strip('{}')
+        ld = gen_load(rng, c['profile'], c['s0'], omega=om)
         c['load'] = ld['lines']
         c['load_cur'] = ld['cur']
         c['loadline'] = {'kind': ld['kind'], 'E': ld['E'], 'Zl': ld['Zl']}
@@ -486,15 +570,15 @@ def gen_cases(rng, tier):
 
 
 # ---- Coq items -----------------------------------------------------------------------------
-HEADER = ('Require Import LT.FieldSec LT.Circuit LT.MNA LT.TheveninOnePort Gen.StampsGen Gen.C01model Gen.C04model.\n'
+HEADER = ('Require Import LT.FieldSec LT.QcI LT.Circuit LT.MNA LT.TheveninOnePort LT.TheveninDense Gen.StampsGen Gen.C01model Gen.C04model.\n'
           'Local Open Scope Z_scope.\n')
 
 
 def fr(x):
-    return None if (x is None or isinstance(x, dict)) else Fraction(x)
+    return None if (x is None or isinstance(x, dict)) else num(x)
 
 
-def raws_of(d, tr, res, eps='0'):
+def raws_of(d, tr, res, eps='0', fld='QcF'):
     kindc = KINDS.get(d['kind'])
     if kindc is None:
         return None
@@ -507,7 +591,7 @@ def raws_of(d, tr, res, eps='0'):
             if o:
                 owner = o
                 break
-        r = craw_of(e, ids, kindc, owner, eps) if owner else None
+        r = craw_of(e, ids, kindc, owner, eps, fld) if owner else None
         if r is None:
             res.count('unsupported_class_' + str(e['cls']))
             return None
@@ -521,7 +605,7 @@ def mat_of(d):
     Z = d['Z']
     if any(x is None for row in A for x in row) or any(x is None for x in Z):
         return None, None
-    return [[Fraction(x) for x in row] for row in A], [Fraction(x) for x in Z]
+    return [[num(x) for x in row] for row in A], [num(x) for x in Z]
 
 
 def src_part(d, nn):
@@ -533,9 +617,9 @@ def src_part(d, nn):
     for e in d['elements']:
         o = e.get('_owner')
         if o == 'V' and e['name'] in ub and e['params'].get('pVoc') is not None:
-            z[nn + ub.index(e['name'])] += Fraction(e['params']['pVoc'])
+            z[nn + ub.index(e['name'])] += num(e['params']['pVoc'])
         elif o == 'I' and e['params'].get('pIsc') is not None:
-            i = Fraction(e['params']['pIsc'])
+            i = num(e['params']['pIsc'])
             n1, n2 = e['nidx'][0], e['nidx'][1]
             if n1 >= 0:
                 z[n1] += i
@@ -544,8 +628,8 @@ def src_part(d, nn):
     return z
 
 
-def xs(x):
-    return '[%s]' % '; '.join(q(v) for v in x)
+def xs(x, fld='QcF'):
+    return '[%s]' % '; '.join(q(v, fld) for v in x)
 
 
 def build_net_items(ci, case, wr, tr, res):
@@ -557,6 +641,7 @@ def build_net_items(ci, case, wr, tr, res):
         res.count('net_kind_' + str(kind))
         return items, info
     kd = KINDTAG[kind]
+    fld = 'QcIF' if kind == 'ac' else 'QcF'     # ac: phasors, Gaussian rationals
     dumps = wr['dumps']
     d_l = dumps.get('lap') or dumps.get('orig')
     d_o = dumps.get('orig') or d_l
@@ -569,7 +654,7 @@ def build_net_items(ci, case, wr, tr, res):
         if d is d_o and tag == 'l':
             sets['l'] = sets['o']
             continue
-        raws = raws_of(d, tr, res)
+        raws = raws_of(d, tr, res, fld=fld)
         A, Z = mat_of(d)
         if raws is None or A is None:
             res.count('net_unsupported_or_irrational')
@@ -577,7 +662,7 @@ def build_net_items(ci, case, wr, tr, res):
         nn = len(d['node_list']) - 1
         mm = len(d['unknown_branch_currents'])
         name = 'es_%d_%s' % (ci, tag)
-        defn = 'Definition %s : list craw := [%s].' % (name, ';\n  '.join(raws))
+        defn = 'Definition %s : list (graw %s) := [%s].' % (name, fld, ';\n  '.join(raws))
         if p not in d['node_index'] or m not in d['node_index']:
             res.count('net_port_node_missing')
             return items, info
@@ -593,10 +678,10 @@ def build_net_items(ci, case, wr, tr, res):
         for r in range(nn + mm):
             for c in range(nn + mm):
                 blk = ('MG' if c < nn else 'MB') if r < nn else ('MC' if c < nn else 'MD')
-                ents.append('(%s, %d, %d, %s)' % (blk, r if r < nn else r - nn, c if c < nn else c - nn, q(A[r][c])))
-            ents.append('(%s, %d, 0, %s)' % ('MIs' if r < nn else 'MEs', r if r < nn else r - nn, q(Z[r])))
+                ents.append('(%s, %d, %d, %s)' % (blk, r if r < nn else r - nn, c if c < nn else c - nn, q(A[r][c], fld)))
+            ents.append('(%s, %d, 0, %s)' % ('MIs' if r < nn else 'MEs', r if r < nn else r - nn, q(Z[r], fld)))
         items.append(dict(label='%d/entries_%s' % (ci, tag), probe='entries', role='main', defn=defn,
-                          expr='c_entries %s [%s]' % (name, '; '.join(ents))))
+                          expr='g_entries %s %s [%s]' % (fld, name, '; '.join(ents))))
         res.count('entries_compared', len(ents))
     so, sl = sets['o'], sets['l']
     if pi_eq(so) or pi_eq(sl):
@@ -612,7 +697,7 @@ def build_net_items(ci, case, wr, tr, res):
 
     def add(probe, role, s_, fn, args, x, val):
         items.append(dict(label='%d/%s%s' % (ci, probe, '' if role == 'main' else '~' + role), probe=probe, role=role, defn=s_['defn'],
-                          expr='%s %s %d%%nat %d%%nat %s %s %s' % (fn, s_['name'], s_['nn'], s_['mm'], args, xs(x), q(val))))
+                          expr='%s %s %d%%nat %d%%nat %s %s %s' % (fn.replace('@F', fld), s_['name'], s_['nn'], s_['mm'], args, xs(x, fld), q(val, fld))))
 
     pm = lambda s_: '(%d) (%d)' % (s_['pi'], s_['mi'])
     # well-posedness certificate (left inverse of the system matrix of the killed network = of the network)
@@ -622,7 +707,7 @@ def build_net_items(ci, case, wr, tr, res):
         info['singular'] = True
         return items, info
     items.append(dict(label='%d/inv' % ci, probe='inv', role='main', defn=sl['defn'],
-                      expr='c_inv %s %d%%nat %d%%nat [%s]' % (sl['name'], sl['nn'], sl['mm'], '; '.join(xs(r) for r in B))))
+                      expr='g_inv %s %s %d%%nat %d%%nat [%s]' % (fld, sl['name'], sl['nn'], sl['mm'], '; '.join(xs(r, fld) for r in B))))
     # Voc
     x_oc = solve(so['A'], so['Z'])
     info['wellposed'] = x_oc is not None
@@ -631,7 +716,7 @@ def build_net_items(ci, case, wr, tr, res):
         for nm in ('Voc', 'thVoc'):
             v = fr(api.get(nm))
             if v is not None:
-                add(nm, 'main', so, 'c_voc', pm(so), x_oc, v * scale)
+                add(nm, 'main', so, 'g_voc @F', pm(so), x_oc, v * scale)
     else:
         res.count('net_open_circuit_singular')
     # Isc
@@ -641,7 +726,7 @@ def build_net_items(ci, case, wr, tr, res):
         for nm in ('Isc', 'noIsc'):
             v = fr(api.get(nm))
             if v is not None:
-                add(nm, 'main', so, 'c_isc %s' % kd, pm(so), x_sc, v * scale)
+                add(nm, 'main', so, 'g_isc @F %s' % kd, pm(so), x_sc, v * scale)
     # Zth: killed network + unit test current
     kl = KINDTAG['transient'] if kind == 'dc' else kd
     x_t = solve(sl['A'], sl['e'])
@@ -654,9 +739,9 @@ def build_net_items(ci, case, wr, tr, res):
         for nm in ('Z', 'thZ'):
             v = fr(api.get(nm))
             if v is not None:
-                add(nm, 'main', sl, 'c_zth true %s' % kl, pm(sl), x_t, v)
+                add(nm, 'main', sl, 'g_zth @F true %s' % kl, pm(sl), x_t, v)
                 if x_tf is not None:
-                    add(nm, 'icskept', sl, 'c_zth false %s' % kl, pm(sl), x_tf, v)
+                    add(nm, 'icskept', sl, 'g_zth @F false %s' % kl, pm(sl), x_tf, v)
     # Yth: killed network + unit test voltage
     x_y = solve(border(sl['A'], sl['e']), [Fraction(0)] * len(sl['e']) + [Fraction(1)])
     x_yf = None
@@ -667,24 +752,51 @@ def build_net_items(ci, case, wr, tr, res):
         for nm in ('Y', 'noY'):
             v = fr(api.get(nm))
             if v is not None:
-                add(nm, 'main', sl, 'c_yth true %s' % kl, pm(sl), x_y, v)
+                add(nm, 'main', sl, 'g_yth @F true %s' % kl, pm(sl), x_y, v)
                 if x_yf is not None:
-                    add(nm, 'icskept', sl, 'c_yth false %s' % kl, pm(sl), x_yf, v)
+                    add(nm, 'icskept', sl, 'g_yth @F false %s' % kl, pm(sl), x_yf, v)
     # transfer (p, m) -> port2
     if case.get('port2') and (fr(api.get('H')) is not None or fr(api.get('H_direct')) is not None):
         p2, m2 = case['port2']
         ni = sl['d']['node_index']
         across = False
         vs_in = vs_out = False
+        removed = []
         a2, b2 = ni.get(p2), ni.get(m2)
+        ub_ = sl['d']['unknown_branch_currents']
         for e_ in sl['d']['elements']:
             if len(e_['nidx']) >= 2 and set(e_['nidx'][:2]) == {sl['pi'], sl['mi']}:
-                if e_.get('_owner') in ('V', 'VCVS', 'CCVS', 'AM', 'TF', 'TR'):
-                    across = True
+                if e_.get('_owner') in ('VCVS', 'CCVS', 'AM', 'TF', 'TR'):
+                    across = True         # (whether apply_test_voltage_source removes these is not modelled)
                 if e_.get('_owner') == 'V':
                     vs_in = True
+                    removed.append(e_['name'])
             if e_.get('_owner') == 'V' and a2 is not None and b2 is not None and len(e_['nidx']) >= 2 and set(e_['nidx'][:2]) == {a2, b2}:
                 vs_out = True
+        # a removed source that controls a CCVS/CCCS would leave a dangling reference: not modelled
+        if any(e_.get('ctrl') in removed for e_ in sl['d']['elements']):
+            across = True
+        x_h, x_hf = x_y, x_yf
+        if removed and not across:
+            # m_remove_vs: the sources across the input disappear; their branch unknowns stay in the model's numbering,
+            # unconstrained - the witness sets them to 0
+            res.count('transfer_with_source_across_input_removed')
+            Ar = [list(r_) for r_ in sl['A']]
+            Zr = list(sl['Z'])
+            for nm_ in removed:
+                k_ = sl['nn'] + ub_.index(nm_)
+                for t_ in range(len(Ar)):
+                    Ar[t_][k_] = Fraction(0)
+                    Ar[k_][t_] = Fraction(0)
+                Ar[k_][k_] = Fraction(1)
+                Zr[k_] = Fraction(0)
+            x_h = solve(border(Ar, sl['e']), [Fraction(0)] * len(sl['e']) + [Fraction(1)])
+            x_hf = None
+            if has_ic and x_h is not None:
+                zf = [a - b for a, b in zip(Zr, zsrc)]
+                for nm_ in removed:
+                    zf[sl['nn'] + ub_.index(nm_)] = Fraction(0)
+                x_hf = solve(border(Ar, sl['e']), zf + [Fraction(1)])
         # transfer() tries a ladder-network shortcut on kill() when the netlist has at least 6 elements
         info['ladder_fp'] = (len(case['netlist']) >= 6) and (vs_in or vs_out or (a2 is not None and a2 == b2))
         # ... and CircuitGraph.series_path follows a two-element branch through its middle node: fingerprint = a non-port node
@@ -695,19 +807,28 @@ def build_net_items(ci, case, wr, tr, res):
                 continue
             for n_ in set(e_['nidx'][:2]):
                 deg[n_] = deg.get(n_, 0) + 1
+        # ... and the ladder maker does not notice components it could not place (two elements in parallel inside a
+        # series/shunt path): fingerprint = two non-source elements on the same node pair
+        pairs_ = {}
+        for e_ in sl['d']['elements']:
+            if e_.get('_owner') in ('I', 'V') or len(e_['nidx']) < 2:
+                continue
+            k_ = frozenset(e_['nidx'][:2])
+            pairs_[k_] = pairs_.get(k_, 0) + 1
+        info['ladder_parallel_fp'] = (len(case['netlist']) >= 6) and any(v_ >= 2 and len(k_) == 2 for k_, v_ in pairs_.items())
         ports_ = {sl['pi'], sl['mi'], a2, b2, -1}
         info['ladder_series_fp'] = (len(case['netlist']) >= 6) and any(k_ >= 0 and k_ not in ports_ and v_ == 2 for k_, v_ in deg.items())
         if a2 is not None and b2 is not None and a2 == b2:
             res.count('transfer_skipped_output_nodes_merged')
-        elif a2 is not None and b2 is not None and not across and x_y is not None:
-            info['model']['H'] = pvx(sl, x_y, a2, b2)
+        elif a2 is not None and b2 is not None and not across and x_h is not None:
+            info['model']['H'] = pvx(sl, x_h, a2, b2)
             for nm in ('H', 'H_direct'):
                 v = fr(api.get(nm))
                 if v is None:
                     continue
-                add(nm, 'main', sl, 'c_tr true %s' % kl, '%s (%d) (%d)' % (pm(sl), a2, b2), x_y, v)
-                if x_yf is not None:
-                    add(nm, 'icskept', sl, 'c_tr false %s' % kl, '%s (%d) (%d)' % (pm(sl), a2, b2), x_yf, v)
+                add(nm, 'main', sl, 'g_tr @F true %s' % kl, '%s (%d) (%d)' % (pm(sl), a2, b2), x_h, v)
+                if x_hf is not None:
+                    add(nm, 'icskept', sl, 'g_tr @F false %s' % kl, '%s (%d) (%d)' % (pm(sl), a2, b2), x_hf, v)
         else:
             res.count('transfer_skipped_source_across_input')
     return items, info
@@ -767,10 +888,10 @@ def cases_file(items):
 # ---- oracles on Lcapy's own outputs -----------------------------------------------------------
 def intersect(Voc, Zth, line):
     """(u, j) with u = Voc - Zth j and the load line u = E + Zl j (Zl None: open, j = 0)"""
-    E = Fraction(line['E'])
+    E = num(line['E'])
     if line['Zl'] is None:
         return (Voc, Fraction(0))
-    Zl = Fraction(line['Zl'])
+    Zl = num(line['Zl'])
     if Zth + Zl == 0:
         return None
     j = (Voc - E) / (Zth + Zl)
@@ -780,7 +901,7 @@ def intersect(Voc, Zth, line):
 def vi(x):
     if not isinstance(x, dict) or 'vi' not in x or any(v is None for v in x['vi']):
         return None
-    return (Fraction(x['vi'][0]), Fraction(x['vi'][1]))
+    return (num(x['vi'][0]), num(x['vi'][1]))
 
 
 def oracle(case, wr, info):
@@ -859,7 +980,7 @@ def classify(probe, failed, passed_diag, has_ic):
 def run(tier='quick', replay=None):
     res = core.Result(PID, tier)
     rng = random.Random(core.seed() * 104729 + 4)
-    core.ensure_theory(['FieldSec', 'Circuit', 'MNA', 'Thevenin', 'TheveninOnePort', 'TheveninDense'])
+    core.ensure_theory(['FieldSec', 'QcI', 'Circuit', 'MNA', 'Thevenin', 'TheveninOnePort', 'TheveninDense'])
     w = core.Work(PID)
     violations = []
     try:
@@ -1077,6 +1198,11 @@ def run(tier='quick', replay=None):
                         # the documented route agrees with the Coq model, the ladder shortcut does not, and the killed netlist has a
                         # two-element series branch (middle node of degree 2)
                         key = 'NetlistOpsMixin.transfer:ladder-series-branch'
+                        if 'H' in keys:
+                            keys['H'] = key
+                    if nm == 'transfer_route' and not info.get('ladder_fp') and key == 'oracle:transfer_route' and info.get('ladder_parallel_fp') \
+                            and 'H_direct' not in keys and ('H_direct', 'main') in passed:
+                        key = 'NetlistOpsMixin.transfer:ladder-unplaced-components'
                         if 'H' in keys:
                             keys['H'] = key
                     if nm == 'transfer_route' and info.get('ladder_fp') and 'H_direct' not in keys:
